@@ -82,10 +82,16 @@ Definition mcase_opt_ok (c : mcase) : bool :=
         | (_, _, s) :: _ => Qeq_bool s (sw_brute A B sc gap)
         end
       else true
-  | MED A B out _ =>
+  | MED A B out norm =>
       (Z.abs (Z.of_nat (length A) - Z.of_nat (length B)) <=? out)%Z &&
       (out <=? Z.max (Z.of_nat (length A)) (Z.of_nat (length B)))%Z &&
-      (if small A B 5 then Z.eqb out (ed_brute A B) else true)
+      (if small A B 5 then Z.eqb out (ed_brute A B) else true) &&
+      (* the normalised distance is the returned distance over the longer length (no value when both are empty) *)
+      match Nat.max (length A) (length B), norm with
+      | O, None => true
+      | S k, Some q => qclose q (inject_Z out / inject_Z (Z.of_nat (S k)))
+      | _, _ => false
+      end
   | MRED _ _ _ _ _ _ => true
   | MPW _ _ _ _ _ => true
   end.
@@ -99,9 +105,16 @@ Definition mcase_score_ok (c : mcase) : bool :=
       match we_align A B sc gap with
       | Some l => list_eqb Qeq_bool (map snd l) (map snd out)
       | None => false end
-  | MED A B out norm => Z.eqb (edit_dist A B) out
+  | MED A B out norm =>
+      Z.eqb (edit_dist A B) out &&
+      match edit_dist_norm A B, norm with
+      | Some q, Some q' => qclose q q'
+      | None, None => true
+      | _, _ => false end
   | MRED A B rA rB out norm =>
-      match restricted_edit_dist A B rA rB with Some (s, _) => Z.eqb s out | None => false end
+      match restricted_edit_dist A B rA rB with
+      | Some (s, len) => Z.eqb s out && qclose (inject_Z s / inject_Z (Z.of_nat len)) norm
+      | None => false end
   | MPW _ _ _ _ _ => true
   end.
 
